@@ -397,6 +397,119 @@ func ruleREC234(c *Ctx) {
 			}
 			return true
 		})
+		// ... and only where the state reached by shifting ERROR has an action on the real
+		// lookahead (otherwise the parser is handed a configuration it rejects at once, and the
+		// loop in parse repeats without consuming input)
+		{
+			decls := tiFuncDecls(ti)
+			// lookaheadOK: e is known true at position pos in fn only if _Find(_actions, s, la) found an action
+			var lookaheadOK func(fn *ast.FuncDecl, e ast.Expr, pos token.Pos, depth int) bool
+			closestDef := func(fn *ast.FuncDecl, o types.Object, before token.Pos) ast.Expr {
+				var best ast.Expr
+				var bestPos token.Pos
+				ast.Inspect(fn.Body, func(m ast.Node) bool {
+					as, ok := m.(*ast.AssignStmt)
+					if !ok || as.End() > before {
+						return true
+					}
+					for i, l := range as.Lhs {
+						if usesObj(info, l) == o && as.Pos() >= bestPos {
+							bestPos = as.Pos()
+							if len(as.Rhs) == len(as.Lhs) {
+								best = as.Rhs[i]
+							} else {
+								best = as.Rhs[0]
+							}
+						}
+					}
+					return true
+				})
+				return best
+			}
+			isLookaheadFind := func(e ast.Expr) bool {
+				call := callNamed(info, e, "_Find")
+				if call == nil || len(call.Args) != 3 || exprString(call.Args[0]) != "_actions" {
+					return false
+				}
+				mentionsLa := false
+				ast.Inspect(call.Args[2], func(k ast.Node) bool {
+					if ke, ok := k.(ast.Expr); ok && (fieldNamed(info, ke, "_la") || (fieldNamed(info, ke, "Type") && strings.Contains(exprString(ke), "_la"))) {
+						mentionsLa = true
+					}
+					return true
+				})
+				return mentionsLa
+			}
+			lookaheadOK = func(fn *ast.FuncDecl, e ast.Expr, pos token.Pos, depth int) bool {
+				e = ast.Unparen(e)
+				if id, ok := e.(*ast.Ident); ok {
+					if d := closestDef(fn, usesObj(info, id), pos); d != nil {
+						return isLookaheadFind(d)
+					}
+					return false
+				}
+				call, ok := e.(*ast.CallExpr)
+				if !ok || depth >= 2 {
+					return false
+				}
+				hf := calleeFunc(info, call)
+				if hf == nil {
+					return false
+				}
+				h := decls[hf.Origin()]
+				if h == nil {
+					return false
+				}
+				hpar := parents(h)
+				all, n := true, 0
+				inspectNoLit(h.Body, func(m ast.Node) bool {
+					rs, ok := m.(*ast.ReturnStmt)
+					if !ok || len(rs.Results) != 1 || exprString(rs.Results[0]) == "false" {
+						return true
+					}
+					n++
+					if exprString(rs.Results[0]) != "true" {
+						if !lookaheadOK(h, rs.Results[0], rs.Pos(), depth+1) {
+							all = false
+						}
+						return true
+					}
+					okFact := false
+					for _, f := range pathConds(info, hpar, rs) {
+						if !f.neg && lookaheadOK(h, f.e, f.e.Pos()+1, depth+1) {
+							okFact = true
+						}
+					}
+					if !okFact {
+						all = false
+					}
+					return true
+				})
+				return all && n > 0
+			}
+			okLa, nLa := true, 0
+			rpar := parents(rec)
+			ast.Inspect(rec.Body, func(m ast.Node) bool {
+				rs, ok := m.(*ast.ReturnStmt)
+				if !ok || len(rs.Results) != 1 || exprString(rs.Results[0]) != "true" {
+					return true
+				}
+				nLa++
+				found := false
+				for _, f := range pathConds(info, rpar, rs) {
+					if !f.neg && lookaheadOK(rec, f.e, f.e.Pos()+1, 0) {
+						found = true
+					}
+				}
+				if !found {
+					okLa = false
+				}
+				return true
+			})
+			c.check(okLa && nLa >= 1, "REC-2", variant+"/_recover/success-requires-lookahead-action", ti.Pos(rec.Pos()),
+				"_recover succeeds only if the state reached by shifting the error terminal has an action on the real lookahead",
+				"_recover can succeed although the state after the error terminal has no action on the lookahead: parse fails again at once without consuming input (endless retry at end of input)")
+		}
 		c.check(okT && nT >= 1, "REC-2", variant+"/_recover/success-installs-error", ti.Pos(rec.Pos()),
 			"_recover returns true only after queuing the real lookahead and installing (ERROR, Error) in its place: the next action is taken on the error terminal", "_recover can return true without installing the error terminal as lookahead (or clobbers the real lookahead)")
 		nF, okF := 0, true
